@@ -466,6 +466,9 @@ fn check_history(report: &Report, rt: &Arc<tokio::runtime::Runtime>, hist: &[H])
 
 pub fn run(opts: Opts) -> i32 {
     let report = Report::new("C03", "exploration", opts.clone());
+    if let Some(path) = &opts.replay {
+        report.replay_by_re_enumeration(path);
+    }
     report.set_rule(
         "part a: for each of the 38 frame types the product of per-field value domains (strings: empty / ascii / escapes+NUL+emoji / 70 KiB; \
          JSON values incl. nested and envelope-colliding objects; optional fields absent/present; collections empty/1/2; numeric extremes) - \
